@@ -22,10 +22,19 @@ def make_content(rng, n_pixels, n_runs, title, unit_variant, strings):
     ang = 'deg' if unit_variant % 2 else 'rad'
     eu = ['meV', 'eV', 'ueV'][unit_variant % 3]
     exps = []
+    # indirect geometry: the energy-transfer bin boundaries may be given per detector, as a 2-d array in either dimension order
+    en_2d = em == sqw.EnergyMode.indirect and unit_variant % 4 >= 2
     for r in range(n_runs):
+        if en_2d:
+            n_det, n_en = int(rng.integers(2, 4)), int(rng.integers(2, 5))
+            en = sc.array(dims=['detector', 'energy_transfer'], values=rng.uniform(-5, 5, (n_det, n_en)), unit=eu)
+            if (unit_variant + r) % 2:
+                en = en.transpose(['energy_transfer', 'detector']).copy()
+        else:
+            en = sc.array(dims=['energy_transfer'], values=rng.uniform(-5, 5, int(rng.integers(1, 5))), unit=eu)
         exps.append(sqw.SqwIXExperiment(
             run_id=r, efix=sc.scalar(float(rng.uniform(1, 100)), unit=eu), emode=em,
-            en=sc.array(dims=['energy_transfer'], values=rng.uniform(-5, 5, int(rng.integers(1, 5))), unit=eu),
+            en=en,
             psi=sc.scalar(float(rng.uniform(-180, 180)), unit=ang), u=sc.vector(rng.normal(size=3)), v=sc.vector(rng.normal(size=3)),
             omega=sc.scalar(float(rng.uniform(-3, 3)), unit=ang), dpsi=sc.scalar(float(rng.uniform(-3, 3)), unit=ang),
             gl=sc.scalar(float(rng.uniform(-3, 3)), unit=ang), gs=sc.scalar(float(rng.uniform(-3, 3)), unit=ang),
@@ -194,7 +203,13 @@ def check_content(w, content, order, title):
                     probs.append(f"run {r}: stored run_id {e['run_id']} is not 1-based id {s.run_id + 1}")
                 if not np.allclose(np.atleast_1d(e['efix']), s.efix.to(unit='meV').values, rtol=1e-14):
                     probs.append(f'run {r}: efix not in meV')
-                if not np.allclose(np.asarray(e['en']).ravel(), s.en.to(unit='meV').values, rtol=1e-14):
+                if s.en.ndim == 2:
+                    want_en = s.en.transpose(['detector', 'energy_transfer']).to(unit='meV').values
+                    got_en = np.asarray(e['en'])
+                    if got_en.shape != want_en.shape or not np.allclose(got_en, want_en, rtol=1e-14):
+                        probs.append(f'run {r}: 2-d en (per detector) not stored as [detector, energy_transfer] in meV: shape {got_en.shape}, '
+                                     f'first row {got_en.reshape(-1)[:3]} vs {want_en[0][:3]}')
+                elif not np.allclose(np.asarray(e['en']).ravel(), s.en.to(unit='meV').values, rtol=1e-14):
                     probs.append(f'run {r}: en not in meV')
                 for a in ('psi', 'omega', 'dpsi', 'gl', 'gs'):
                     if not np.isclose(e[a], getattr(s, a).to(unit='rad').value, rtol=1e-14, atol=0):
@@ -258,7 +273,11 @@ def check_package_reader(data, content, order, title, byteorder):
         except sc.UnitError:
             probs.append(f'{what}: read back with unit {b.unit}, supplied in {a.unit} (different physical dimension)')
             return
-        if not np.allclose(np.asarray(bb.values, dtype=float), np.asarray(a.values, dtype=float), rtol=1e-12, atol=0):
+        if bb.ndim > 1 and set(bb.dims) == set(a.dims):
+            bb = bb.transpose(a.dims)       # same named dimensions: the order of the dims is not part of the content
+        if np.shape(bb.values) != np.shape(a.values) and not (np.size(bb.values) == np.size(a.values) == 1):
+            probs.append(f'{what}: shape read back {dict(bb.sizes)} != supplied {dict(a.sizes)}')
+        elif not np.allclose(np.asarray(bb.values, dtype=float), np.asarray(a.values, dtype=float), rtol=1e-12, atol=0):
             probs.append(f'{what}: value read back {bb.values} {a.unit} != supplied {a.values} {a.unit}')
     if 'sample' in order:
         ss = got[('experiment_info', 'samples')]
